@@ -61,12 +61,13 @@ REF_OK = re.compile(r'[a-zA-Z0-9_:\-.~]*\Z')
 
 def in_domain(c):
     """Haystack value domain shared by both formats: a Bin payload is a MIME type (ZINC's Bin alphabet),
-    a unit is made of unit characters, a Ref name of Ref characters."""
+    a unit is made of unit characters and sits on a finite number, a Ref name of Ref characters."""
     if isinstance(c, tuple):
         if c and c[0] == 'bin':
             return bool(BIN_OK.match(c[1]))
         if c and c[0] == 'num' and len(c) == 3 and c[2]:
-            return bool(UNIT_OK.match(c[2]))
+            # a unit on INF / NaN has no ZINC spelling either (e.g. the JSON token n:1.798E308 kW/h overflows to INF)
+            return bool(UNIT_OK.match(c[2])) and c[1] not in ('nan', codec.fbits(float('inf')), codec.fbits(float('-inf')))
         if c and c[0] == 'ref':
             return bool(REF_OK.match(c[1]))
         return all(in_domain(x) for x in c)
